@@ -1390,7 +1390,7 @@ class AnsiString:
             inplace - when True, do the conversion in-place and return self;
                       when False, do the conversion on a copy and return the copy
         '''
-        obj = self
+        obj = self.copy()
         idx = obj._s.find(old)
         while (count < 0 or count > 0) and idx >= 0:
             if isinstance(new, AnsiStr):
